@@ -142,6 +142,7 @@ pub fn gen_text(
                 fork_sched: None,
                 base_text: vec![],
                 faults: vec![],
+                stranger: None,
             };
             let n_lex = r.range(1, max_lexemes.max(1));
             for _ in 0..n_lex {
